@@ -14,6 +14,7 @@ INST = {
 UNITS = {
     "drv": ("units/drv.rs", None),
     "final": ("units/final.rs", None),
+    "cmp": ("units/cmp.rs", None),
     "time": ("units/time.rs", None),
     "map.f64": ("units/map.rs", "f64"),
     "map.of64": ("units/map.rs", "of64"),
@@ -69,6 +70,12 @@ PLAN["C17"] = dict(
 PLAN["C16"] = dict(
     verus=dict(quick=["time"], thorough=["time"]),
     kani=dict(quick=["time_nat", "time_unit_identity"], thorough=["time_nat", "time_unit_identity"]),
+    level="proof",
+)
+
+PLAN["C03"] = dict(
+    verus=dict(quick=["cmp"], thorough=["cmp"]),
+    kani=dict(quick=[], thorough=[]),
     level="proof",
 )
 
